@@ -96,7 +96,7 @@ def c02(tier, seed):
         + diff_jobs("C02", tier, seed, dict(flags=0.2, nest=0.3, nest_flag=0.2, const_flag=0.3, share_fns=0.3), 2, nj_scale=0.5,
                     only=["call_site_received_wrong_values", "tawazi_returned_but_plain_python_raises", "value_only_to_be_passed_on_was_inspected"])
         # the consumers inside a COMPOSED DAG receive the values given for the inputs they depend on (inputs listed in any order)
-        + [dict(kind="comp19", pid="C02", n_cases=(150 if tier == "quick" else 1500), only=["composed_value_differs_from_substituted_pipeline"],
+        + [dict(kind="comp19", pid="C02", n_cases=(600 if tier == "quick" else 2500), only=["composed_value_differs_from_substituted_pipeline"],
                 **_seeds(seed + 67, k)) for k in range(2 if tier == "quick" else 6)]
         # ... whoever makes the call: a worker thread, a node function of another DAG (main-thread nodes run on THAT thread and are
         # waited for like everywhere else)
@@ -137,6 +137,8 @@ def c03(tier, seed):
                       "node_ids_of_reused_functions_not_as_documented"], **_seeds(seed + 85, k)) for k in range(2 if tier == "quick" else 8)]
         # a DAG described while other threads describe / call DAGs holds every call site of ITS describing function and no foreign one;
         # a DAG called meanwhile executes (it is not traced into the other thread's description)
+        + [dict(kind="comp19", pid="C03", n_cases=(1500 if tier == "quick" else 4000), only=["composed_dag_ran_more_or_less_than_the_outputs_need"],
+                **_seeds(seed + 89, k)) for k in range(2 if tier == "quick" else 6)]
         + [dict(kind="conc16", pid="C03", n_cases=(48 if tier == "quick" else 320), lockset=False,
                 only=["dag_built_during_overlap_differs_from_dag_built_alone", "dag_built_concurrently_differs_from_dag_built_alone",
                       "dag_call_during_other_threads_build_returned_wrong_value", "dag_call_during_other_threads_build_raised"],
@@ -221,6 +223,10 @@ def c09(tier, seed):
     jobs = sched_jobs(tier, seed, gen=dict(nmax=9, mc_max=3, seq_rate=0.3), selections=True, faults=True, fault_rate=0.3,
                       dfs_faults=False)
     jobs += sched_jobs(tier, seed + 11, gen=dict(nmax=5, mc_max=2, seq_rate=0.4), stress=False, dfs=True, dfs_faults=True, scale=0.2)
+    # every case with failing nodes (all exception classes, with and without known call locations) on async-thread / mixed shapes: a
+    # failure that does not reach the scheduler is a call that never ends
+    jobs += sched_jobs(tier, seed + 17, gen=dict(nmax=6, mc_max=3, mix="async_main"), faults=True, fault_rate=1.0, dfs=False, stress=False, scale=0.3,
+                       flavour="both")
     # executions started from inside node functions (also setup() inside a setup node): must terminate
     jobs += [dict(kind="imbricated", n_cases=(60 if tier == "quick" else 600), op_watchdog_s=20, **_seeds(seed + 80, k)) for k in range(2 if tier == "quick" else 4)]
     # executors built and run with debug nodes switched on (selections that re-attach debug nodes with several parents): building the
@@ -365,6 +371,9 @@ def c10(tier, seed):
                 **_seeds(seed + 45, k)) for k in range(2 if tier == "quick" else 8)]
         # a flag that is a DAG argument is evaluated for every call: IF a setup node carrying such a flag can be built at all, the
         # second call does not run on the first call's flag
+        + [dict(kind="comp19", pid="C10", n_cases=(600 if tier == "quick" else 2500),
+                only=["composed_dag_ran_more_or_less_than_the_outputs_need", "composed_value_differs_from_substituted_pipeline"],
+                **_seeds(seed + 49, k)) for k in range(2 if tier == "quick" else 6)]
         + [dict(kind="hist15", pid="C10", leak_only=True, n_histories=(3 if tier == "quick" else 20),
                 only=["later_call_computed_from_an_earlier_calls_argument*"], **_seeds(seed + 47, 0))],
         level="exploration",
